@@ -171,6 +171,17 @@ def programs():
         {'a': T(workflow='sub', **{'with-items': 'i in <% $.xs %>',
                                    'on-success': ['b']}), 'b': T()},
         input={'xs': [1, 2]}, subs={'sub': direct({'s1': T(key='s1')})})
+    # a result that arrives after the stop and cannot be handled (its
+    # publish clause fails): the late failure must not touch the stopped
+    # execution
+    P['late_bad_publish'] = direct(
+        {'a': T(**{'on-success': ['b']}),
+         'b': T(publish={'v': ['bad']}, **{'on-success': ['c']}),
+         'c': T()})
+    badleaf = direct({'s1': T(key='s1', publish={'v': ['bad']})})
+    P['subwf_late_bad_publish'] = direct(
+        {'a': T(workflow='sub', **{'on-success': ['b']}), 'b': T()},
+        subs={'sub': badleaf})
     return P
 
 
@@ -194,6 +205,21 @@ def scenarios(tier):
                 tag = ''.join(res[k][0] for k in sorted(res))
                 scn = StopScenario('%s/%s/%s' % (pname, mname, tag), prog,
                                    results=res, menu=menu, max_cmds=1)
+                jobs.append((scn, 0 if quick else 1,
+                             40 if quick else 1200, 1))
+        # the same stop repeated on the (then finished) execution
+        if pname in ('seq3', 'subwf', 'late_bad_publish'):
+            res = assigns[0]
+            tag = ''.join(res[k][0] for k in sorted(res))
+            for st in ('ERROR', 'CANCELLED', 'SUCCESS'):
+                seqs = [['stop:' + st, 'stop_any:' + st]]
+                menu = ['stop:' + st, 'stop_any:' + st]
+                if prog.get('subs'):
+                    seqs.append(['stop_sub:' + st, 'stop_sub_any:' + st])
+                    menu += ['stop_sub:' + st, 'stop_sub_any:' + st]
+                scn = StopScenario('%s/stop_twice_%s/%s' % (pname, st, tag),
+                                   prog, results=res, menu=menu, max_cmds=2,
+                                   sequences=seqs)
                 jobs.append((scn, 0 if quick else 1,
                              40 if quick else 1200, 1))
     return jobs
